@@ -262,3 +262,93 @@ def CMon.verdict (m : CMon) : List String :=
   | f :: _ => [s!"prop cond=FAIL {f}"]
 
 end OtelVerif.C02.Check
+
+namespace OtelVerif.C02.Check
+
+/-! ## soak monitor: native-scheduler runs, judged on the event log alone
+
+Events are logged by the harness around the real calls: `ret` when an Offer returned, `hand` inside the consume
+function (after `Read` popped the request), `fin` just before `OnDone`, `size` for sampled `Size()` values, `final`
+for `Size()` after everything was drained.  Request ids are `producer*1000 + k`, `k` increasing per producer.
+Only schedule-independent facts are checked. -/
+inductive SEv
+  | ret (id : Nat) (el : Int) (st : String)
+  | hand (id : Nat)
+  | fin (id : Nat) (e : Nat)
+  | size (n : Int)
+  | final (n : Int)
+deriving Repr, DecidableEq
+
+structure SCfg where
+  cap : Int
+  wfr : Bool
+  persistent : Bool
+  singleConsumer : Bool
+
+def handedOf (evs : List SEv) : List Nat := evs.filterMap (fun e => match e with | .hand id => some id | _ => none)
+def retsOf (evs : List SEv) : List (Nat × Int × String) :=
+  evs.filterMap (fun e => match e with | .ret id el st => some (id, el, st) | _ => none)
+def finsOf (evs : List SEv) : List (Nat × Nat) := evs.filterMap (fun e => match e with | .fin id e => some (id, e) | _ => none)
+def sizesOf (evs : List SEv) : List Int := evs.filterMap (fun e => match e with | .size n => some n | .final n => some n | _ => none)
+def finalsOf (evs : List SEv) : List Int := evs.filterMap (fun e => match e with | .final n => some n | _ => none)
+
+/-- the Offer of this id may have enqueued it (not a refusal; a zero-sized memory request is never enqueued) -/
+def mayBeQueued (c : SCfg) (r : Nat × Int × String) : Bool :=
+  let st := r.2.2
+  !(st == "full" || st == "inv" || st == "big" || (!c.wfr && st == "ctx")) && (c.persistent || r.2.1 != 0)
+
+/-- the Offer of this id certainly enqueued it -/
+def surelyQueued (c : SCfg) (r : Nat × Int × String) : Bool :=
+  let st := r.2.2
+  (st == "nil" || st.startsWith "e") && (c.persistent || r.2.1 != 0)
+
+def ascending : List Nat → Bool
+  | a :: b :: t => decide (a < b) && ascending (b :: t)
+  | _ => true
+
+def nodupB : List Nat → Bool
+  | [] => true
+  | a :: t => !(t.contains a) && nodupB t
+
+def soakOnce (evs : List SEv) : Bool := nodupB (handedOf evs)
+def soakOnlyAccepted (c : SCfg) (evs : List SEv) : Bool :=
+  (handedOf evs).all (fun id => (retsOf evs).any (fun r => r.1 == id && mayBeQueued c r))
+def soakAllHanded (c : SCfg) (evs : List SEv) : Bool :=
+  (retsOf evs).all (fun r => !(surelyQueued c r) || (handedOf evs).contains r.1)
+def soakSizes (c : SCfg) (evs : List SEv) : Bool :=
+  (sizesOf evs).all (fun n => decide (0 ≤ n) && decide (n ≤ c.cap)) && (finalsOf evs).all (fun n => n == 0)
+def soakFifo (c : SCfg) (evs : List SEv) : Bool :=
+  !c.singleConsumer ||
+  ((handedOf evs).map (· / 1000)).eraseDups.all (fun p => ascending ((handedOf evs).filter (fun id => id / 1000 == p)))
+def soakRouting (c : SCfg) (evs : List SEv) : Bool :=
+  !c.wfr || (retsOf evs).all (fun r => !(surelyQueued c r) || routingClause (finsOf evs) r.1 r.2.2)
+
+/-- every schedule-independent clause at once (sound: `C02_check_soak_sound`) -/
+def soakAll (c : SCfg) (evs : List SEv) : Bool :=
+  soakOnce evs && soakOnlyAccepted c evs && soakAllHanded c evs && soakSizes c evs && soakFifo c evs && soakRouting c evs
+
+def soakVerdict (c : SCfg) (evs : List SEv) : List String :=
+  if soakAll c evs then ["prop soak=ok"]
+  else if !soakOnce evs then [s!"prop soak=FAIL sig=C02/soak/handed-twice handed={handedOf evs}"]
+  else if !soakOnlyAccepted c evs then
+    [s!"prop soak=FAIL sig=C02/soak/refused-or-unknown-handed {(handedOf evs).filter (fun id => !((retsOf evs).any (fun r => r.1 == id && mayBeQueued c r)))}"]
+  else if !soakAllHanded c evs then
+    [s!"prop soak=FAIL sig=C02/soak/accepted-never-handed {((retsOf evs).filter (fun r => surelyQueued c r && !((handedOf evs).contains r.1))).map (·.1)}"]
+  else if !soakSizes c evs then [s!"prop soak=FAIL sig=C02/soak/size-out-of-bounds-or-final-nonzero sizes={(sizesOf evs).eraseDups} final={finalsOf evs} cap={c.cap}"]
+  else if !soakFifo c evs then [s!"prop soak=FAIL sig=C02/soak/single-consumer-order handed={handedOf evs}"]
+  else [s!"prop soak=FAIL sig=C02/soak/result-crosstalk"]
+
+def parseSEv (toks : List String) : Option SEv :=
+  match toks with
+  | ["ret", id, el, st] => match id.toNat?, el.toInt? with
+    | some id, some el => some (.ret id el st)
+    | _, _ => none
+  | ["hand", id] => id.toNat?.map SEv.hand
+  | ["fin", id, e] => match id.toNat?, e.toNat? with
+    | some id, some e => some (.fin id e)
+    | _, _ => none
+  | ["size", n] => n.toInt?.map SEv.size
+  | ["final", n] => n.toInt?.map SEv.final
+  | _ => none
+
+end OtelVerif.C02.Check
